@@ -702,6 +702,7 @@ class World:
         self.const_vals = {}   # rust constant name -> python value (int, or float for f32)
         self.penums = {}       # payload enum name -> [(variant, payload rust type or None)]
         self.opaque = {}       # opaque item type -> {predicate method name: gallina boolean function}; values are N
+        self.oracles = {}      # free function name -> (gallina parameter name, gallina type): calls become applications of an explicit extra parameter
         self.on_demand = None  # callback (type or None, fn name) -> funcinfo or None: translate a helper of the current file when first called
         self.tried = set()
 
@@ -723,6 +724,12 @@ class World:
         m = re.match(r'^(?:Iter|IterMut|std::slice::Iter|Vec)<(.+)>$', ty)
         if m:
             return 'list %s' % self.paren(self.gty(m.group(1), self_ty))
+        m = re.match(r'^HashSet<(.+)>$', ty)
+        if m:
+            # a HashSet is a list under SET semantics (set_insert / set_remove / set_mem of Base/GRes.v); only N elements
+            if self.gty(m.group(1), self_ty) != 'N':
+                raise Unsupported('HashSet of %s' % m.group(1))
+            return 'list N'
         m = re.match(r'^Result<(.*)>$', ty)
         if m:
             parts = split_top(m.group(1))
@@ -798,6 +805,7 @@ class Ctx:
         self.break_k = None
         self.continue_k = None
         self.generic_types = {}
+        self.oracles_used = []        # [(gallina parameter name, gallina type)] of the oracle calls met (shared by copies)
 
     def copy(self):
         c = Ctx(self.w, self.self_ty, self.ret_ty, self.recvs, self.fuel_used)
@@ -812,6 +820,7 @@ class Ctx:
         c.break_k = self.break_k
         c.continue_k = self.continue_k
         c.generic_types = self.generic_types
+        c.oracles_used = self.oracles_used
         return c
 
     def tmp(self, base='t'):
@@ -849,6 +858,22 @@ def place_key(e):
     return None
 
 
+def spread_self(cx):
+    """is `self` a `&mut self` receiver of a translated record type, held as one variable per field?"""
+    return 'self' not in cx.vars and any(rn == 'self' for rn, _ in cx.recvs) and cx.self_ty in cx.w.records
+
+
+def set_place(cx, key):
+    """(gallina name, element rust type) when key names a place of type HashSet<T>, else None"""
+    if key is None:
+        return None
+    ent = cx.places.get(key) or cx.vars.get(key)
+    if not ent:
+        return None
+    m = re.match(r'^HashSet<(.+)>$', cx.w.norm(ent[1], cx.self_ty) or '')
+    return (ent[0], m.group(1)) if m else None
+
+
 def effect_call(e, cx):
     """(funcinfo, receiver place key or None, args) when e is a call of a translated non-plain function"""
     while e[0] == 'paren':
@@ -864,12 +889,17 @@ def effect_call(e, cx):
             f = cx.w.funcs.get((ty, e[2]))
             if f and not f['plain']:
                 return f, key, e[3]
+            if key == 'self' and spread_self(cx):
+                # self.method(..) where self is a `&mut self` record spread into its fields
+                f = cx.w.lookup(cx.self_ty, e[2])
+                if f and not f['plain']:
+                    return f, key, e[3]
     if e[0] == 'call' and e[1][0] == 'path':
         p = e[1][1]
         f = None
         if len(p) == 2 and (p[0] == 'Self' or p[0] == cx.self_ty or (p[0], p[1]) in cx.w.funcs):
             f = cx.w.lookup(cx.self_ty if p[0] == 'Self' else p[0], p[1])
-        elif len(p) == 1 and p[0][0].islower() and p[0] not in cx.vars:
+        elif len(p) == 1 and p[0][0].islower() and p[0] not in cx.vars and p[0] not in cx.w.oracles:
             f = cx.w.lookup(None, p[0])
         if f and not f['plain'] and f['recv'] is None:
             return f, None, e[2]
@@ -948,6 +978,8 @@ def tr_expr(e, cx, expect=None):
         return 'tt', [], '()'
     if k == 'path':
         p = e[1]
+        if len(p) == 3 and p[0] in ('stun_rs', 'crate') and p[1] in w.enums:
+            p = p[1:]                      # stun_rs::MessageClass::Indication
         if p == ['self'] and 'self' not in cx.vars and cx.self_ty in w.records:
             sty = cx.self_ty
             return '{| %s |}' % '; '.join('%s_%s := %s' % (sty, f, cx.places['self.%s' % f][0]) for f, _ in w.records[sty]), [], sty
@@ -1173,6 +1205,19 @@ def tr_expr(e, cx, expect=None):
                 return cx.generic_types[p[0]], [], 'AttributeType'
             if p == ['Duration', 'default'] or p == ['Duration', 'ZERO']:
                 return '0', [], 'Duration'
+            if p == ['HashSet', 'new'] and not e[2]:
+                return '[]', [], expect or 'HashSet<?>'
+            if len(p) == 1 and p[0] in w.oracles:
+                # a function outside the translated subset whose RESULT is an explicit parameter of the translated caller
+                oname, oty = w.oracles[p[0]]
+                if (oname, oty) not in cx.oracles_used:
+                    cx.oracles_used.append((oname, oty))
+                ats, conds = [], []
+                for a in e[2]:
+                    t, c, _ = tr_expr(a, cx)
+                    ats.append(atom(t))
+                    conds += c
+                return '%s %s' % (oname, ' '.join(ats)), conds, 'bool'
             if p in (['BigEndian', 'read_u16'], ['BigEndian', 'read_u32']) and len(e[2]) == 1:
                 t, c, ty = tr_expr(e[2][0], cx)
                 nb = 2 if p[1] == 'read_u16' else 4
@@ -1340,6 +1385,10 @@ def tr_expr(e, cx, expect=None):
             return '(if %s then Some %s else None)' % (ct, atom(vt)), conds, 'Option<%s>' % (w.norm(vty, cx.self_ty) or '?')
         if name in ('ok_or_else', 'ok_or') and len(args) == 1:
             return tr_expr(recv, cx, expect)
+        if name == 'contains' and len(args) == 1 and set_place(cx, place_key(recv)):
+            t, c, ty = tr_expr(recv, cx)
+            at, ac, _ = tr_expr(args[0], cx)
+            return 'set_mem %s %s' % (atom(at), atom(t)), c + ac, 'bool'
         if name == 'is_some' or name == 'is_none':
             t, c, _ = tr_expr(recv, cx)
             return ('opt_is_some %s' % atom(t)) if name == 'is_some' else 'negb (opt_is_some %s)' % atom(t), c, 'bool'
@@ -1521,12 +1570,22 @@ def bind_effect(call, cx, k):
         t, c, _ = tr_expr(a, cx, pty)
         ats.append(atom(t))
         conds += c
-    recv_g = None if key is None else (cx.places[key][0] if key in cx.places else cx.vars[key][0])
+    respread = ''
+    if key == 'self' and key not in cx.places and key not in cx.vars:
+        # the receiver is the current record, rebuilt from its field variables; after a `&mut self` call they are re-read
+        sty = cx.self_ty
+        recv_term = '{| %s |}' % '; '.join('%s_%s := %s' % (sty, f, cx.places['self.%s' % f][0]) for f, _ in cx.w.records[sty])
+        recv_g = cx.tmp('self')
+        if fi['recv'] == 'mut':
+            respread = ''.join('let %s := %s_%s %s in\n  ' % (cx.places['self.%s' % f][0], sty, f, recv_g) for f, _ in cx.w.records[sty])
+    else:
+        recv_g = None if key is None else (cx.places[key][0] if key in cx.places else cx.vars[key][0])
+        recv_term = recv_g
     r = cx.tmp('r')
     fuel = ['fuel'] if fi.get('fuel') else []
     if fi.get('fuel'):
         cx.fuel_used[0] = True
-    callt = '%s %s' % (fi['gname'], ' '.join(fuel + ([recv_g] if recv_g else []) + ats))
+    callt = '%s %s' % (fi['gname'], ' '.join(fuel + ([recv_term] if recv_g else []) + ats))
     cx.uses_panic[0] = True
     if fi['recv'] == 'mut':
         if fi['ret'] in ('()', None):
@@ -1538,7 +1597,7 @@ def bind_effect(call, cx, k):
     else:
         pat = r
         res = r
-    body = k(cx, res, fi['ret'])
+    body = respread + k(cx, res, fi['ret'])
     return chk(conds, 'match %s with GOk %s => %s | GPanic => GPanic | GFuel => GFuel end' % (callt, pat, body), cx)
 
 
@@ -1696,6 +1755,13 @@ def tr_stmts(stmts, tail, cx, k):
             return k(cx, None)
         if tail[0] in ('if', 'match') and is_control(tail, cx):
             return tr_control(tail, cx, k)
+        if tail[0] == 'mcall' and tail[2] in ('insert', 'remove') and len(tail[3]) == 1 and set_place(cx, place_key(tail[1])):
+            # SET.insert(x) / SET.remove(x) as a value: whether x was new / was present; the set is updated
+            g, ety = set_place(cx, place_key(tail[1]))
+            vt, vc, _ = tr_expr(tail[3][0], cx, ety)
+            r = cx.tmp('r')
+            val = 'negb (set_mem %s %s)' % (atom(vt), g) if tail[2] == 'insert' else 'set_mem %s %s' % (atom(vt), g)
+            return chk(vc, 'let %s := %s in\n  let %s := set_%s %s %s in\n  %s' % (r, val, g, tail[2], atom(vt), g, k(cx, r)), cx)
         call = effect_call(tail, cx)
         if call:
             return bind_effect(call, cx, lambda cx2, res, ty: k(cx2, res))
@@ -1859,6 +1925,11 @@ def tr_stmts(stmts, tail, cx, k):
                 st, sc, _ = tr_expr(e[3][0], cx)
                 conds = rc + sc + ['%s - %s =? len %s' % (atom(bt), atom(at), atom(st))]
                 return chk(conds, 'let %s := list_splice %s %s %s in\n  %s' % (g, g, atom(at), atom(st), tr_stmts(rest, tail, cx, k)), cx)
+        if e[0] == 'mcall' and e[2] in ('insert', 'remove') and len(e[3]) == 1 and set_place(cx, place_key(e[1])):
+            # SET.insert(x); / SET.remove(x); the returned boolean is dropped
+            g, ety = set_place(cx, place_key(e[1]))
+            vt, vc, _ = tr_expr(e[3][0], cx, ety)
+            return chk(vc, 'let %s := set_%s %s %s in\n  %s' % (g, e[2], atom(vt), g, tr_stmts(rest, tail, cx, k)), cx)
         if e[0] == 'mcall' and e[2] == 'push' and len(e[3]) == 1:
             key = place_key(e[1])
             if key is not None and (key in cx.vars or key in cx.places):
@@ -2149,6 +2220,7 @@ def translate_fn(world, gname, src, fn, self_ty=None, recv_record=None):
     if not plain:
         rty = 'gres %s' % World.paren(rty)
     fuel_b = ['(fuel : nat)'] if fuel_used[0] else []
+    binders = binders + ['(%s : %s)' % (on, oty) for on, oty in cx.oracles_used]      # oracle parameters come last
     text = ''.join(l + '\n' for l in cx.lifted) + 'Definition %s %s : %s :=\n  %s\n  %s.' % (gname, ' '.join(fuel_b + binders), rty, '\n  '.join(entry_lets), term)
     info = dict(gname=gname, plain=plain, params=plist[0 if recv in (None, 'mutparam') else 0:], ret=ret_n, recv=('mut' if recv == 'mut' else recv),
                 fuel=fuel_used[0])
@@ -2394,6 +2466,32 @@ def main():
     emit_fn('gen_RttCalcuator_reset', rtt, 'reset', 'RttCalcuator', r'impl\s+RttCalcuator')
     emit_fn('gen_RttCalcuator_update', rtt, 'update', 'RttCalcuator', r'impl\s+RttCalcuator')
     emit_fn('gen_RttCalcuator_rto', rtt, 'rto', 'RttCalcuator', r'impl\s+RttCalcuator')
+
+    # ---- stun-agent/src/integrity.rs : TransportIntegrity (C07, C08, C17)
+    #   HashSet<TransactionId> is a `list N` under SET semantics (Base/GRes.v: set_insert / set_remove / set_mem);
+    #   a StunMessage is opaque: (class by declaration index of MessageClass, transaction id);
+    #   HMACKey and StunAttribute are opaque values (N);
+    #   validate_message_integrity (cryptography, outside the subset) is an ORACLE: an explicit function parameter of the
+    #   translated caller, applied to the translated arguments of the call.
+    itg = 'stun-agent/src/integrity.rs'
+    saved_opaque = dict(w.opaque)
+    w.opaque['TransactionId'] = {}
+    w.opaque['HMACKey'] = {}
+    w.opaque['StunAttribute'] = {}
+    w.opaque['StunMessage'] = {'@type': '(N * N)', 'class': ('fst', 'MessageClass'), 'transaction_id': ('snd', 'TransactionId')}
+    w.oracles['validate_message_integrity'] = ('oracle_validate_message_integrity', 'N -> N -> list N -> bool')
+    emit_enum(itg, 'IntegrityError')
+    for i_, v_ in enumerate(w.enums.get('IntegrityError', [])):
+        out.append('Definition gen_IntegrityError_%s : N := %d.' % (v_, i_))       # the codes BY NAME (what the agreement lemmas use)
+    out.append('')
+    emit_record(itg, 'TransportIntegrity')
+    emit_fn('gen_TransportIntegrity_new', itg, 'new', 'TransportIntegrity', r'impl\s+TransportIntegrity')
+    emit_fn('gen_TransportIntegrity_discard_message', itg, 'discard_message', 'TransportIntegrity', r'impl\s+TransportIntegrity')
+    emit_fn('gen_TransportIntegrity_compute_message_integrity', itg, 'compute_message_integrity', 'TransportIntegrity', r'impl\s+TransportIntegrity')
+    emit_fn('gen_TransportIntegrity_signal_protection_violated_on_timeout', itg, 'signal_protection_violated_on_timeout', 'TransportIntegrity',
+            r'impl\s+TransportIntegrity')
+    w.opaque = saved_opaque
+    w.oracles.pop('validate_message_integrity', None)
 
     body = '\n'.join(out) + '\n'
     os.makedirs(os.path.dirname(OUT), exist_ok=True)
